@@ -816,6 +816,16 @@ func splitInlineBox(context *layoutContext, box_ Box, positionX, maxX, bottomSpa
 	rightSpacing := box.PaddingRight.V() + box.MarginRight.V() + box.BorderRightWidth.V()
 	contentBoxLeft := positionX
 
+	// The children are laid out from positionX and shifted by the start
+	// spacing afterwards: keep room for it.
+	if bo.InlineT.IsInstance(box_) && (isStart || box.Style.GetBoxDecorationBreak() == "clone") {
+		if box.Style.GetDirection() == "rtl" {
+			maxX -= rightSpacing
+		} else {
+			maxX -= leftSpacing
+		}
+	}
+
 	if box.Style.GetPosition().String == "relative" {
 		absoluteBoxes = &[]*AbsolutePlaceholder{}
 	}
